@@ -89,7 +89,19 @@ def open_index(p, bs, ctx, case_ref, idx=None):
     if idx is None:
         idx = index_fasta_file(p, bs)
     fi.index, fi.assembly = idx
-    fi.__dict__["fasta_fileandle"] = ReadProxy(p.open("rb"), ctx, lambda: fi.buffer_size, case_ref)
+    if bs < 2**30:
+        fi.__dict__["fasta_fileandle"] = ReadProxy(p.open("rb"), ctx, lambda: fi.buffer_size, case_ref)
+    else:
+        # huge buffers: the object's own way of opening the file is used (nothing to measure there anyway);
+        # wrapped so that the caller can close it the same way
+        class _Own:
+            def __init__(self, fh):
+                self.fh = fh
+
+            def __getattr__(self, k):
+                return getattr(self.fh, k)
+
+        fi.__dict__["fasta_fileandle"] = _Own(type(fi).fasta_fileandle.func(fi) if hasattr(type(fi).fasta_fileandle, "func") else type(fi).fasta_fileandle.fget(fi))
     return fi
 
 
@@ -120,7 +132,11 @@ def check_differential(ctx, data, scs, buffers, scratch, case_ref, second=None):
             ctx.violation(f"indexing-raised-{type(e).__name__}", f"buffer={bs}: {e}", case)
             return
         ip = idx_plain(*res)
-        fi = open_index(p, bs, ctx, case_ref, res)
+        try:
+            fi = open_index(p, bs, ctx, case_ref, res)
+        except Exception as e:  # noqa: BLE001
+            ctx.violation(f"opening-for-streaming-raised-{type(e).__name__}", f"buffer={bs}: {e}", case)
+            return
         out = io.BytesIO()
         try:
             FastaStream(out, fi).write_assembly(Assembly("o", scaffolds=build_scaffolds(scs)))
@@ -179,8 +195,13 @@ def check_memory(ctx, bs, mult, scratch, case_ref, shape):
         if line:
             full, rem = divmod(L, 60)
             blk = (line + b"\n") * 1000
+            nblk = (b"N" * 60 + b"\n") * 1000
+            nth = 0
             for _ in range(full // 1000):
-                fh.write(blk)
+                # shape n-run: the middle third of the sequence is one long run of N (many buffers long)
+                third = (full // 1000) // 3
+                fh.write(nblk if shape == "n-run" and third <= nth < 2 * third else blk)
+                nth += 1
             fh.write((line + b"\n") * (full % 1000))
             if rem:
                 fh.write(line[:rem] + b"\n")
@@ -257,6 +278,10 @@ def run(shard, ctx):
             w = rng.choice(meta["widths"])
             L = len(rng.choice(meta["records"])[1])
             buffers = sorted({1, 2, 3, 5, 7, max(1, w - 1), w, w + 1, max(1, L - 1), L, L + 1, 250000})
+            if i % 5 == 0:
+                # "larger than everything" values people pass: 2**31, 2**40, sys.maxsize
+                buffers += [rng.choice([2**31, 2**31 + 1, 2**40, 2**63 - 1])]
+                ctx.count("diff:cases-with-huge-buffer")
             scs = gfa.gen_sub_assembly(rng, meta["records"], rng.choice(buffers[:-1]))
             fl = [r[3] - r[2] + 1 for s in scs for r in s[1] if r[0] == "F"]
             if fl:
@@ -281,7 +306,7 @@ def replay(case, ctx):
 def plan(tier, seed):
     n, per = (10, 60) if tier == "quick" else (12, 4000)
     sh = [{"kind": "diff", "n": per} for _ in range(n)]
-    mem = [(4096, 400, "wrapped"), (50000, 400, "wrapped"), (4096, 300, "wrapped"), (20000, 330, "wrapped")]
+    mem = [(4096, 400, "wrapped"), (50000, 400, "wrapped"), (4096, 300, "n-run"), (20000, 330, "wrapped")]
     if tier == "thorough":
         mem += [(1000, 400, "wrapped"), (250000, 300, "wrapped"), (50000, 300, "wrapped"), (20000, 350, "wrapped"), (8192, 1000, "wrapped")]
     sh += [{"kind": "mem", "cases": [m]} for m in mem]
@@ -293,6 +318,7 @@ def gates(c, tier):
         "diff:cases-ok": 500,
         "diff:buffer-runs": 5000,
         "diff:second-stream-from-same-index": 5000,
+        "diff:cases-with-huge-buffer": 50,
         "io:reads": 10000,
         "io:chunks:fwd_chunks": 5000,
         "io:chunks:rev_chunks": 2000,
